@@ -58,15 +58,18 @@ structure Draw (S : Type) where
 
 variable {S D : Type}
 
-/-- `NearestNeighborsLinear::nearest`: `if (pos == sz || dmin > distance) { pos = i; dmin = distance; }` —
-the first minimum.  Returns `tree.size` for an empty tree. -/
+/-- one turn of the scan in `NearestNeighborsLinear::nearest`:
+`if (pos == sz || dmin > distance) { pos = i; dmin = distance; }` -/
+def nearestStep (cfg : Cfg S D) (tree : Array (Node S)) (q : S) (acc : Nat × D) (i : Nat) : Nat × D :=
+  match tree[i]? with
+  | none => acc
+  | some nd =>
+    let d := cfg.dist nd.state q
+    if acc.1 == tree.size || cfg.lt d acc.2 then (i, d) else acc
+
+/-- `NearestNeighborsLinear::nearest`: the first minimum.  Returns `tree.size` for an empty tree. -/
 def nearest (cfg : Cfg S D) (tree : Array (Node S)) (q : S) : Nat :=
-  ((List.range tree.size).foldl (fun (acc : Nat × D) i =>
-    match tree[i]? with
-    | none => acc
-    | some nd =>
-      let d := cfg.dist nd.state q
-      if acc.1 == tree.size || cfg.lt d acc.2 then (i, d) else acc) (tree.size, cfg.zero)).1
+  ((List.range tree.size).foldl (nearestStep cfg tree q) (tree.size, cfg.zero)).1
 
 /-- the states RRT keeps from `getMotionStates(a, b, states, validSegmentCount(a,b), true, true)` -/
 def motionStates (cfg : Cfg S D) (a b : S) : List S :=
